@@ -240,7 +240,7 @@ theorem renderHints_noHash (hs : List Hint) (hl : ∀ h ∈ hs, '#' ∉ h.label)
 
 theorem dropWhile_spaces_word (n : Nat) (w R : Str) (hne : w ≠ []) (hw : ∀ c ∈ w, isSpacePy c = false) :
     (List.replicate n ' ' ++ (w ++ R)).dropWhile isSpaceRe = w ++ R := by
-  apply dropWhile_spaces
+  apply dropWhile_spaces_re
   intro c hc
   cases w with
   | nil => exact absurd rfl hne
